@@ -30,7 +30,7 @@ from ..util import quiet
 from .. import concolic as cc
 
 PROP = 'C10'
-LEVEL = 'proof'
+LEVEL = 'translation_validation'
 TIMEOUT_MS = 20000
 
 META = dict(
